@@ -50,7 +50,7 @@ BOUNDS = {
     "quick": "34 subjects (table units: degree arcmin rad | K degC delta_degC degF | dB Np | dimensionless percent | C statC T G | m Msun | "
              "km/s degree/s J/K g/cm**3; custom registries: added xla, prefixed kxlp, offset xto, delta xtd, angle xga, logarithmic xlg, compounds; "
              "modified xla and modified default pc; unit_system=cgs registry) x 11 routes (pickle 2/5 of quantity, pickle 5 of Unit, deepcopy of "
-             "quantity, deepcopy/copy/q.copy() of the SYMBOLIC quantity itself, Unit.copy(deep), Unit.copy(), str, JSON, savetxt) x per-kind families "
+             "quantity, deepcopy/copy/q.copy() of the SYMBOLIC quantity itself, Unit.copy(deep), Unit.copy(), str, JSON, savetxt; + for one table subject per kind: 3-column text files read back with usecols=(2,0) and (1,)) x per-kind families "
              "of follow-ups (trig 3, exp 1, base 4, arith 7, unit 3, thermal equivalence; per partner unit: bin 6, conv 4) x order {original first, "
              "restored first with fresh-world reference} (object-graph routes both orders, by-reference/text routes original-first only); scalar and "
              "2-element payloads; + 361 registry-table cases (one per subject x route); + 150 concrete value round-trip cases",
@@ -196,7 +196,35 @@ def r_savetxt(ctx, u, reg):
     return ra.units
 
 
+def r_savetxt_cols(usecols, pos, delimiter=",", header=False):
+    """a file of three columns in different units, the subject in file column `pos`; read back with loadtxt(usecols=...):
+    the array that holds the subject's column must carry the subject's unit (and its numbers)"""
+    def f(ctx, u, reg):
+        unyt = ctx.mods["unyt"]
+        cols = [unyt.unyt_array(np.array([4.0, 5.0, 6.0]), "km"), unyt.unyt_array(np.array([7.0, 8.0, 9.0]), "s"),
+                unyt.unyt_array(np.array([0.5, 0.25, 0.125]), "g")]
+        mine = np.array([1.0, 2.0, 3.0])
+        cols[pos] = unyt.unyt_array(mine, u)
+        fd, fn = tempfile.mkstemp(suffix=".txt", prefix="c11_")
+        os.close(fd)
+        try:
+            kw = dict(header="two lines\nof free text") if header else {}
+            unyt.savetxt(fn, cols, delimiter=delimiter, **kw)
+            ret = unyt.loadtxt(fn, delimiter=delimiter, usecols=usecols)
+        finally:
+            os.unlink(fn)
+        order = list(usecols) if isinstance(usecols, (tuple, list)) else [usecols]
+        back = ret if not isinstance(ret, tuple) else ret[order.index(pos)]
+        if not np.array_equal(np.asarray(back.d), mine):
+            raise AssertionError(f"column {pos} read with usecols={usecols}: numbers {np.asarray(back.d)!r} are not the stored {mine!r}")
+        return back.units
+    return f
+
+
 ROUTES = {
+    "text:savetxt.cols(2,0)": r_savetxt_cols((2, 0), 2), "text:savetxt.cols(2,0)b": r_savetxt_cols((2, 0), 0),
+    "text:savetxt.cols(1,)": r_savetxt_cols((1,), 1), "text:savetxt.cols(0,2)": r_savetxt_cols((0, 2), 2, delimiter="\t", header=True),
+    "text:savetxt.cols(1,2,0)": r_savetxt_cols((1, 2, 0), 0), "text:savetxt.cols1": r_savetxt_cols(1, 1),
     # object-graph serialisers: the sympy dimension expressions and the registry table are re-created
     "graph:pickle2.unit": r_pickle_unit(2), "graph:pickle3.unit": r_pickle_unit(3), "graph:pickle4.unit": r_pickle_unit(4),
     "graph:pickle5.unit": r_pickle_unit(5),
@@ -225,7 +253,7 @@ ROUTES = {
 # routes whose copy can carry solver terms: the follow-up runs on copy(q(x, original unit)) itself, payload included
 QROUTES = {"graph:deepcopy.symq": copy.deepcopy, "ref:copy.symq": copy.copy, "ref:qtycopy.symq": lambda q: q.copy()}
 PARTNER_RESTORED_ROUTES = {f"graph:pickle{HI}.qty", "graph:deepcopy.qty", f"graph:pickle{HI}.unit"}
-DEFAULT_ONLY_ROUTES = {"text:savetxt"}  # loadtxt reads unit names in the default registry: custom symbols are outside
+DEFAULT_ONLY_ROUTES = {"text:savetxt"} | {r for r in ROUTES if r.startswith("text:savetxt.cols")}  # loadtxt reads unit names in the default registry: custom symbols are outside
 
 # ---------------------------------------------------------------------------------------------------------------- follow-ups
 
@@ -776,6 +804,9 @@ SUBJECTS_THOROUGH_EXTRA = [
 # quick: one representative per persistence mechanism; both orders on three object-graph routes
 ROUTES_QUICK = ["graph:pickle2.qty", f"graph:pickle{HI}.qty", f"graph:pickle{HI}.unit", "graph:deepcopy.symq", "graph:unitcopy.deep",
                 "ref:copy.symq", "text:str", "text:json", "text:savetxt"]
+# multi-column text files read back with usecols (non-ascending, subset, scalar): for one table subject per kind (quick: two forms; thorough: all)
+ROUTES_COLS_QUICK = ["text:savetxt.cols(2,0)", "text:savetxt.cols(1,)"]
+ROUTES_COLS = [r for r in ROUTES if r.startswith("text:savetxt.cols")]
 ROUTES_QUICK_BOTH_ORDERS = {f"graph:pickle{HI}.qty", f"graph:pickle{HI}.unit", "graph:deepcopy.symq"}
 # thorough, subjects added by the thorough tier
 ROUTES_EXTRA = [f"graph:pickle{HI}.qty", f"graph:pickle{HI}.unit", "graph:deepcopy.qty", "graph:unitcopy.deep", "ref:unitcopy", "text:str", "text:json"]
@@ -808,6 +839,8 @@ def cases(tier, mods):
             routes = ROUTES_QUICK
         else:
             routes = list(ROUTES) if s.id in all_ids else (ROUTES_CORE if s.id in quick_ids else ROUTES_EXTRA)
+        if s.id in all_ids and s.world == "default":
+            routes = list(routes) + [r for r in (ROUTES_COLS if thorough else ROUTES_COLS_QUICK) if r not in routes]
         for route in _routes_for(s, routes):
             out.append(make_registry_case(s, route))
             heavy = route.startswith("graph:")
